@@ -30,9 +30,10 @@ class DecodeModel:
             raise Broken("Decoder: expected exactly one map member (the reassembly table), found %d" % len(maps))
         self.table = maps[0]["qname"]
         self.table_name = maps[0]["name"]
-        loops = paths.loop_header(self.decode)
+        loops = [(b, l) for b, l in paths.loop_header(self.decode)
+                 if any(callee_name(x) == "ASAM::CMP::Packet::isValidPacket" for x in walk(l.get("body", {})) if x.get("k") == "call")]
         if len(loops) != 1:
-            raise Broken("Decoder::decode: expected exactly one loop (the message walk), found %d" % len(loops))
+            raise Broken("Decoder::decode: expected exactly one loop that validates messages (the message walk), found %d" % len(loops))
         self.loop_block, self.loop_stmt = loops[0]
         cfg = self.decode.cfg
         self.body_entry, self.loop_exit = cfg.succ[self.loop_block]
